@@ -51,6 +51,31 @@ _V = TypeVar('_V', bound=MetadataValue)
 # Namespace.decode(s).
 
 
+def _escape_component(component: str) -> str:
+  """Escapes colons, and backslashes that would otherwise read as escapes."""
+  out = []
+  i = 0
+  while i < len(component):
+    if component[i] == '\\':
+      j = i
+      while j < len(component) and component[j] == '\\':
+        j += 1
+      # Backslashes in front of a colon or at the end of a component are
+      # doubled, so that they cannot be mistaken for the escape character.
+      if j == len(component) or component[j] == ':':
+        out.append('\\' * (2 * (j - i)))
+      else:
+        out.append('\\' * (j - i))
+      i = j
+    elif component[i] == ':':
+      out.append('\\:')
+      i += 1
+    else:
+      out.append(component[i])
+      i += 1
+  return ''.join(out)
+
+
 def _parse(arg: str) -> Tuple[str, ...]:
   """Parses an encoded namespace string into a namespace tuple."""
   # The tricky part here is that arg.split('') has a length of 1, so it can't
@@ -63,26 +88,38 @@ def _parse(arg: str) -> Tuple[str, ...]:
   # TODO: Once we're on Python 3.9, use: arg = arg.removeprefix(':')
   if arg.startswith(':'):
     arg = arg[1:]
-  # The rest of the algorithm is that we split on all colons, both
-  # escaped and unescaped.  Then, we walk through the list of fragments and
-  # join back together the colons that were preceeded by an escape character,
-  # dropping the escape character as we go.
-  fragments = arg.split(':')
+  # The rest of the algorithm scans for runs of backslashes.  A run that is
+  # followed by a colon or by the end of the string was doubled by encode(),
+  # so an odd run followed by a colon ends in an escaped (literal) colon, while
+  # an even run is followed by a separator.  Backslashes followed by any other
+  # character are ordinary characters.
   output = []
-  join = False
-  for frag in fragments:
-    if join and frag and frag[-1] == '\\':
-      output[-1] += ':' + frag[:-1]
-      join = True
-    elif join:  # Doesn't end in an escape character.
-      output[-1] += ':' + frag
-      join = False
-    elif frag and frag[-1] == '\\':  # Don't join to previous.
-      output.append(frag[:-1])
-      join = True
-    else:  # Don't join to previous and doesn't end in an escape.
-      output.append(frag)
-      join = False
+  current = []
+  i = 0
+  while i < len(arg):
+    if arg[i] == '\\':
+      j = i
+      while j < len(arg) and arg[j] == '\\':
+        j += 1
+      run = j - i
+      if j < len(arg) and arg[j] == ':':
+        current.append('\\' * (run // 2))
+        if run % 2:  # Escaped colon.
+          current.append(':')
+          j += 1
+      elif j == len(arg):
+        current.append('\\' * (run // 2))
+      else:
+        current.append('\\' * run)
+      i = j
+    elif arg[i] == ':':
+      output.append(''.join(current))
+      current = []
+      i += 1
+    else:
+      current.append(arg[i])
+      i += 1
+  output.append(''.join(current))
   return tuple(output)
 
 
@@ -166,9 +203,7 @@ class Namespace(abc.Sequence):
     Returns:
       Colons are escaped, then Namespace components are joined by colons.
     """
-    return ''.join(
-        [':' + c.translate(self._ns_repr_table) for c in self._as_tuple]
-    )
+    return ''.join([':' + _escape_component(c) for c in self._as_tuple])
 
   def __len__(self) -> int:
     """Number of components (elements of the tuple form)."""
